@@ -29,7 +29,7 @@ BUDGET = {
 }
 REQUIRED_PROBES = ["populated", "caller_value_kept", "explicit_empty_on_optional_kept", "empty_on_plain_populated",
                    "populated_on_retry_attempt", "concurrent_callers", "kwargs_form", "async_populated",
-                   "two_fields", "decoy_untouched", "non_auto_method", "rest_call", "lro_method"]
+                   "two_fields", "decoy_untouched", "non_auto_method", "rest_call", "lro_method", "host_reseeds_global_prng"]
 ASSUMPTIONS = ["that all attempts of one invocation carry the same id is recorded (probe same_id_across_attempts) "
                "but not judged: the property does not state it",
                "re-submitting the very same request object is not judged (the library fills the caller's object in "
@@ -82,6 +82,15 @@ def gen_scenarios(spec, rng, n):
             if client == "rest" and not m.get("http"):
                 continue
             actors[j % nact]["ops"].append(gen_op(spec, rng, fs, s, m, af, f"o{j}", client))
+        if rng.random() < 0.25:
+            # the host application re-seeds the global PRNG with the same value before every call
+            svc0 = um[0][1]["name"]
+            for a in actors:
+                new = []
+                for op in a["ops"]:
+                    new.append({"id": "rs-" + op["id"], "kind": "reseed", "seed": 1234, "service": svc0, "method": "-"})
+                    new.append(op)
+                a["ops"] = new
         sc = {"client": client, "actors": [a for a in actors if a["ops"]], "jitter_default": 0.0,
               "entropy_seed": rng.randrange(2**32)}
         if len(sc["actors"]) > 1 and rng.random() < 0.4:
@@ -184,6 +193,8 @@ def judge(spec, scenario, history):
     probes = {}
     if len(scenario["actors"]) > 1:
         probes["concurrent_callers"] = 1
+    if any(e["k"] == "reseed" for e in history):
+        probes["host_reseeds_global_prng"] = 1
     # every invocation must reach the wire (or fail with the injected status): an exception raised by the
     # population code itself (before anything is sent) is a violation, not a skipped run
     for oid, op in ops.items():
